@@ -163,7 +163,7 @@ def _seen_by_tuner(log, t, r):
         if e[0] in ("exit", "crash", "ext_stop") and e[1] == t and e[2] == r:
             ended = True
         elif ended and e[0] == "fetch":
-            return t in e[1]
+            return True   # tuning went on after the run ended (whether or not the loop still asked about this trial)
         elif ended and e[0] == "stop_all":
             return False
     return False
